@@ -15,9 +15,21 @@
 //                                         model and implementation alike)
 //   * sums of float/double: {0,1,-1,-0.5,-2}   (all partial sums exact, so
 //                                         the merge order cannot change them)
-//   * unsigned (sums and min/max): {0,1,2,max-1,max}  (wrap-around is defined;
-//                                         max-1 / max are the images of -2/-1)
+//   * unsigned sums: {0,1,max-1,max}     (wrap-around is defined; max-1 / max
+//                                         are the images of -2 / -1, lowest=0)
+//   * unsigned min/max: {0,1,2,max-1,max}
 //   * min/max of int/float/double: the sum alphabet plus {max, lowest}
+//
+// Cases: history BFS for UnionFindNode (4 elements) and DynamicBitSet
+// (n in {1,63,64,65,130}); input enumeration for GAccumulator (+=, -=, update
+// forms), GReduceMax/Min, GReduceLogicalAnd/Or, user Reducibles (move-only
+// value, bit_or, std::function max), DynamicBitSet reset(b,e) and bitwise ops,
+// the AtomicHelpers.h functions, and the PerThread* containers.
+// Detection was checked against a scratch copy of the tree with seeded faults
+// (reset range off by one, compress() a no-op, atomicMax comparison flipped,
+// atomicSubtract adding, reduce() not clearing remote values, reset() skipping
+// thread 0, size_all() skipping row 0): every one is reported; with the two
+// one-line repairs of the genuine findings applied the harness is clean.
 #include "seqx.h"
 
 #include "galois/Galois.h"
@@ -75,6 +87,9 @@ static std::set<std::string>& reported() {
 // chunks at once; so that the report names the simplest counter-example, the
 // worker that first sees a key re-runs the inputs below the failing one (at
 // most SCAN of them) and quotes the smallest that fails with the same key.
+// (Should one of the re-run inputs crash the process, seqx attributes the crash
+// to the input that triggered the scan; the worker that owns the crashing
+// input reports it under the same `<case>:crash` key as well.)
 static std::function<void(uint64_t, bool)>
 once(std::function<void(uint64_t, bool)> f) {
   return [f](uint64_t i, bool th) {
@@ -165,8 +180,8 @@ struct Vals {
       return {T(0), T(1), T(-1), T(-0.5), T(-2)};
     else if constexpr (std::is_signed_v<T>)
       return {0, 1, -1, -2};
-    else
-      return {0u, 1u, 2u, std::numeric_limits<T>::max() - 1,
+    else // images of -2 and -1 under wrap-around; lowest == 0
+      return {0u, 1u, std::numeric_limits<T>::max() - 1,
               std::numeric_limits<T>::max()};
   }
   static std::vector<T> ext() {
@@ -174,6 +189,8 @@ struct Vals {
     if constexpr (std::is_floating_point_v<T> || std::is_signed_v<T>) {
       v.push_back(std::numeric_limits<T>::max());
       v.push_back(std::numeric_limits<T>::lowest());
+    } else {
+      v.insert(v.begin() + 2, T(2)); // a third small value for min/max
     }
     return v;
   }
@@ -1801,11 +1818,11 @@ int main(int argc, char** argv) {
 
   // ---- reducers ----------------------------------------------------------------
   en.push_back(red_case<AccSpec<int, 0>>(8));
-  en.push_back(red_case<AccSpec<unsigned, 0>>(25));
+  en.push_back(red_case<AccSpec<unsigned, 0>>(8));
   en.push_back(red_case<AccSpec<float, 0>>(25));
   en.push_back(red_case<AccSpec<double, 0>>(25));
   en.push_back(red_case<AccSpec<int, 1>>(1));
-  en.push_back(red_case<AccSpec<unsigned, 1>>(3));
+  en.push_back(red_case<AccSpec<unsigned, 1>>(1));
   en.push_back(red_case<AccSpec<float, 1>>(3));
   en.push_back(red_case<AccSpec<double, 1>>(3));
   en.push_back(red_case<MinMaxSpec<int, true>>(2));
